@@ -4,8 +4,8 @@
 #   demo passes on the clean tree and fails with the change; the repository suite still gives 284 passes;
 #   then runs every registered check against the changed package (FINAM_SRC, /repo itself is untouched)
 #   and prints which checks report a VIOLATION.
-ID=$1; V=$2; WT=/tmp/seed/$ID; OUT=$WT/out/$V
-LOG=/tmp/seedlogs/$ID$V; mkdir -p $LOG
+ID=$1; V=$2; WT=${SEEDROOT:-/tmp/seed}/$ID; OUT=$WT/out/$V
+LOG=${SEEDLOGS:-/tmp/seedlogs}/$ID$V; mkdir -p $LOG
 cd $WT || exit 2
 git checkout -q -- src 2>/dev/null
 [ -f src/finam/_version.py ] || echo "__version__ = '0.1.dev1'" > src/finam/_version.py
